@@ -23,7 +23,7 @@ def run(ctx: Ctx) -> int:
         "the instruction's mode equals the table's; _detect_execution_mode on 1-4 instructions with symbolic modes (first mode-specific one, mixture <=> error); contract type "
         "follows the mode; absent pragma => version 1; cost of every cost-relevant opcode for every declared version >= its introduction; cost of a block of <= 3 instructions "
         "chosen by symbolic indices equals the sum",
-        [PT._verify_version, PT._detect_execution_mode, PT.parse_teal, BasicBlock.cost.fget, I.Sha256.cost.fget, I.Ecdsa_pk_decompress.cost.fget],
+        [lambda: PT._verify_version, lambda: PT._detect_execution_mode, lambda: PT.parse_teal, lambda: BasicBlock.cost.fget, lambda: I.Sha256.cost.fget, lambda: I.Ecdsa_pk_decompress.cost.fget],
         {"versions": "1..8", "block_len": "1..3"},
         ["the independent AVM table (vlib/avmspec.py); `method` (pseudo-op) and size-dependent costs (base64_decode, json_ref) are left out of the claim",
          "field-level modes (e.g. `global Round` is application-only) are not instruction-level and are outside the claim"],
